@@ -37,15 +37,42 @@ def _jsonable(o):
 
 
 # ----------------------------------------------------------------------------------------
+_server = [None]
+
+
+def _get_server():
+    sv = _server[0]
+    if sv is not None and sv.poll() is None:
+        return sv
+    sv = subprocess.Popen([PY, '-m', 'symx.replay', '--server'], stdin=subprocess.PIPE, stdout=subprocess.PIPE,
+                          stderr=subprocess.DEVNULL, text=True, cwd=VERIF, env=dict(os.environ, PYTHONPATH=VERIF))
+    _server[0] = sv
+    return sv
+
+
 def replay_concrete(pid, gname, params, env, timeout=300):
-    """run the harness concretely on the *uninstrumented* package in a fresh interpreter"""
+    """run the harness concretely on the *uninstrumented* package in a separate, persistent
+    plain interpreter (one per worker)"""
     payload = json.dumps(dict(property=pid, group=gname, params=_jsonable(params), env=env))
-    p = subprocess.run([PY, '-m', 'symx.replay', '--stdin'], input=payload, capture_output=True, text=True,
-                       cwd=VERIF, timeout=timeout, env=dict(os.environ, PYTHONPATH=VERIF))
-    for line in p.stdout.splitlines():
-        if line.startswith('REPLAY-RESULT '):
-            return json.loads(line[len('REPLAY-RESULT '):])
-    return dict(error='replay produced no result', stdout=p.stdout[-2000:], stderr=p.stderr[-2000:])
+    for attempt in (0, 1):
+        sv = _get_server()
+        try:
+            sv.stdin.write(payload + '\n')
+            sv.stdin.flush()
+            while True:
+                line = sv.stdout.readline()
+                if not line:
+                    raise IOError('replay server died')
+                if line.startswith('REPLAY-RESULT '):
+                    return json.loads(line[len('REPLAY-RESULT '):])
+        except Exception as e:
+            try:
+                sv.kill()
+            except Exception:
+                pass
+            _server[0] = None
+            if attempt:
+                return dict(error='replay failed: %r' % (e,))
 
 
 def _worker(args):
@@ -282,6 +309,7 @@ def main(argv=None):
     known_lines = []
     viol_lines = []
     os.makedirs(os.path.join(VERIF, 'replays', pid), exist_ok=True)
+    seen_v = {}
     for r in results:
         for v in r['violations']:
             e = match_known(known, r['group'], v['label'])
@@ -289,18 +317,25 @@ def main(argv=None):
                 nknown += 1
                 key = (e.get('id') or e.get('what'))
                 if key not in [k for k, _ in known_lines]:
-                    known_lines.append((key, 'KNOWN-FINDING: property=%s %s [%s :: %s]' % (pid, e.get('what'), r['group'], v['label'])))
+                    known_lines.append((key, 'KNOWN-FINDING: property=%s %s [first seen at %s :: %s]' % (pid, e.get('what'), r['group'], v['label'])))
                 v['known'] = e.get('id') or True
                 continue
             nviol += 1
+            k2 = (r['group'], v['label'])
+            seen_v[k2] = seen_v.get(k2, 0) + 1
+            if seen_v[k2] > 1:
+                continue
             body = dict(property=pid, group=r['group'], params=r['params'], env=v['env'], label=v['label'],
                         detail=v.get('detail'))
             h = hashlib.sha1(json.dumps(body, sort_keys=True).encode()).hexdigest()[:12]
             path = os.path.join(VERIF, 'replays', pid, h + '.json')
             with open(path, 'w') as f:
                 json.dump(body, f, indent=1)
-            viol_lines.append('VIOLATION property=%s replay=%s' % (pid, path))
-            print('  violated: group=%s obligation=%s %s env=%s' % (r['group'], v['label'], v.get('detail'), json.dumps(v['env'])))
+            if len(viol_lines) < 25:
+                viol_lines.append('VIOLATION property=%s replay=%s' % (pid, path))
+                print('  violated: group=%s obligation=%s %s env=%s' % (r['group'], v['label'], v.get('detail'), json.dumps(v['env'])[:400]))
+    if len(seen_v) > 25:
+        print('  ... and %d more violated (group, obligation) pairs' % (len(seen_v) - 25))
     for _, line in known_lines:
         print(line)
     for line in viol_lines:
